@@ -200,6 +200,8 @@ type prodScen struct {
 	views    []viewLists
 	pending  int
 	produceReqs int
+	handle  interface{} // the producer under test (for the epoch observation)
+	epoch0  int
 }
 
 type wireSeq struct {
@@ -253,6 +255,18 @@ func scenProducer(r *run) {
 	}
 	cl.onProduce = ps.onProduce
 	r.classify = ps.historyClass
+	r.extraClass = func() string {
+		// the idempotent producer rolled its epoch over (and reset every sequence counter) before this moment
+		var t []string
+		if ps.handle != nil && ps.c.Config.Idempotent && sarama.VerifProducerEpoch(ps.handle) > ps.epoch0 {
+			t = append(t, "after-epoch-bump")
+		}
+		if notConnectedLogged {
+			// a broker worker shut down on ErrNotConnected before this moment (the Broker.Open race)
+			t = append(t, "after-broker-not-connected")
+		}
+		return strings.Join(t, ",")
+	}
 	r.finalClass = func(v *cf.Violation) {
 		// the epoch bump precedes the delivery of the error event that causes it: for the idempotent
 		// producer the fact 'some message got an error outcome in this run' is added once the run is over
@@ -351,6 +365,7 @@ func (ps *prodScen) runAsync(actors []int, byActor map[int][]*cf.Op, closeThink 
 		k.logf("NewAsyncProducer failed: %v", err)
 		return
 	}
+	ps.handle, ps.epoch0 = p, sarama.VerifProducerEpoch(p)
 	collected := make(chan struct{})
 	stopCollect := make(chan struct{})
 	collector := func() {
@@ -441,6 +456,7 @@ func (ps *prodScen) runSync(actors []int, byActor map[int][]*cf.Op, closeThink i
 		k.logf("NewSyncProducer failed: %v", err)
 		return
 	}
+	ps.handle, ps.epoch0 = p, sarama.VerifProducerEpoch(p)
 	var wg sync.WaitGroup
 	for _, a := range actors {
 		ops := byActor[a]
@@ -623,7 +639,7 @@ func (ps *prodScen) historyClass() string {
 		cls = append(cls, "plain")
 	}
 	f := ps.r.faults
-	if f["drop-after"]+f["drop-before"]+f["silence"]+f["conn-reset"]+f["broker-crash"]+f["refuse"]+f["dial-timeout"] > 0 {
+	if f["drop-after"]+f["drop-before"]+f["silence"]+f["conn-reset"]+f["broker-crash"]+f["refuse"]+f["dial-timeout"]+f["read-timeout"] > 0 {
 		cls = append(cls, "conn-failure")
 	}
 	nf := 0
@@ -823,7 +839,7 @@ func (ps *prodScen) seqClass(ids []string) string {
 			cls = append(cls, "multi-epoch")
 		}
 	}
-	if ps.r.faults["drop-after"]+ps.r.faults["drop-before"]+ps.r.faults["silence"]+ps.r.faults["conn-reset"]+ps.r.faults["broker-crash"] > 0 {
+	if ps.r.faults["drop-after"]+ps.r.faults["drop-before"]+ps.r.faults["silence"]+ps.r.faults["conn-reset"]+ps.r.faults["broker-crash"]+ps.r.faults["read-timeout"] > 0 {
 		cls = append(cls, "conn-failure")
 	}
 	if strings.Contains(ps.historyClass(), "after-error-outcome") {
@@ -1212,7 +1228,7 @@ func (ps *prodScen) dupClass(mi *msgInfo, p *mpart, first int64, second *mrec) s
 	if a != nil && a.batch.faulted != "" {
 		cls = append(cls, "first-copy-ack-lost:"+a.batch.faulted)
 	}
-	if ps.r.faults["drop-after"]+ps.r.faults["drop-before"]+ps.r.faults["silence"]+ps.r.faults["conn-reset"]+ps.r.faults["broker-crash"] > 0 {
+	if ps.r.faults["drop-after"]+ps.r.faults["drop-before"]+ps.r.faults["silence"]+ps.r.faults["conn-reset"]+ps.r.faults["broker-crash"]+ps.r.faults["read-timeout"] > 0 {
 		cls = append(cls, "conn-failure")
 	}
 	if strings.Contains(ps.historyClass(), "after-error-outcome") {
